@@ -17,7 +17,7 @@ from __future__ import annotations
 
 import base64
 import binascii
-from decimal import ROUND_HALF_UP, Decimal, localcontext
+from decimal import ROUND_HALF_EVEN, ROUND_HALF_UP, Decimal, localcontext
 from enum import Enum
 from typing import TYPE_CHECKING, Any
 
@@ -384,7 +384,9 @@ def check_convert_value(val: str, char: Characteristic) -> Any:
                 val = offset + (((val - offset) / min_step).to_integral_value() * min_step)
 
         if char.format in INTEGER_TYPES:
-            val = int(val.to_integral_value())
+            # Name the rounding mode: without one the calling thread's decimal
+            # context decides (ROUND_DOWN there would turn 27.75 into 27)
+            val = int(val.to_integral_value(rounding=ROUND_HALF_EVEN))
         else:
             val = float(val)
 
